@@ -677,6 +677,20 @@ func (g *gRun) rewardPromoter() {
 	}
 }
 
+// rewardPromoterAgain: the promoter's address registers one more promoter, under another uid
+func (g *gRun) rewardPromoterAgain(n int) {
+	who := 11
+	tk := g.e.Ticket(0, map[string]interface{}{"uid": UID(clsPromoter, n), "conf": rewardtypes.PromoterConf{CategoryCap: []rewardtypes.CategoryCap{{Category: rewardtypes.RewardCategory_REWARD_CATEGORY_SIGNUP, CapPerAcc: 3}}}})
+	_ = g.other("reward.promoter.again", func(e *Env, ctx sdk.Context) error {
+		msg := &rewardtypes.MsgCreatePromoter{Creator: e.Accts[who].String(), Ticket: tk}
+		if err := msg.ValidateBasic(); err != nil {
+			return err
+		}
+		_, err := rewardkeeper.NewMsgServerImpl(*e.App.RewardKeeper).CreatePromoter(sdk.WrapSDKContext(ctx), msg)
+		return err
+	})
+}
+
 func (g *gRun) rewardCampaign() {
 	if g.promoter < 0 {
 		g.rewardPromoter()
@@ -1354,6 +1368,20 @@ func runGenesisScripted(_ uint64, _ int, out *Out) {
 		g.rewardPromoter()
 		g.rewardCampaign()
 		g.endBlock(true, 5)
+		g.endBlock(false, 5)
+		g.finish()
+	})
+	// 7: reward — the promoter's address registers a second promoter uid after a reward was granted: the by-address
+	//    record is overwritten and the by-category index of the old reward can no longer be rebuilt under its promoter
+	scripts = append(scripts, func(h int) {
+		g := mk(h, true)
+		g.marketAdd(2)
+		g.rewardPromoter()
+		g.rewardCampaign()
+		g.rewardGrant()
+		g.rewardPromoterAgain(2)
+		g.endBlock(true, 5)
+		g.rewardGrant()
 		g.endBlock(false, 5)
 		g.finish()
 	})
